@@ -221,6 +221,33 @@ pub fn monitor(rng: &mut Rng, n: usize, rep: &mut Report) {
             c.new_key = ix::marginfi_account_pda(&c.group, &c.new_auth, idx, 0).0;
             rep.bump("pda_variant");
         }
+        // ---- a stranger with a group of HIS OWN (group creation is permissionless, he is its admin) against this account,
+        //      frozen or not, through either entrypoint: the group passed must be the account's group
+        if rng.chance(1, 3) {
+            let mut w2 = c.w.clone();
+            let stranger = w2.add_wallet(5_000_000_000);
+            let own_group = w2.add_group(stranger);
+            let mut a = w2.marginfi_account(&c.old);
+            let frozen = rng.chance(2, 3);
+            if frozen { a.account_flags |= ACCOUNT_FROZEN; } else { a.account_flags &= !ACCOUNT_FROZEN; }
+            a.account_flags &= !(ACCOUNT_IN_FLASHLOAN | ACCOUNT_IN_RECEIVERSHIP | ACCOUNT_DISABLED);
+            a.migrated_to = Pubkey::default();
+            w2.set_marginfi_account(&c.old, &a);
+            let fee_wallet = w2.group(&own_group).fee_state_cache.global_fee_wallet;
+            let ixn = match c.pda {
+                Some(idx) => ix::transfer_to_new_account_pda(own_group, c.old, stranger, stranger, stranger, fee_wallet, idx, None),
+                None => { let nk = w2.new_key(); ix::transfer_to_new_account(own_group, c.old, nk, stranger, stranger, stranger, fee_wallet) }
+            };
+            let store = w2.accounts.clone();
+            let r = w2.exec(&ixn);
+            rep.bump("foreign_group_probe");
+            if r.is_ok() {
+                rep.fail(format!("C08 a stranger moved the positions of a{} account to an account of his own by passing a group HE created (he is its admin) to {}: the group is not bound to the account", if frozen { " FROZEN" } else { "n" }, if c.pda.is_some() { "transfer_to_new_account_pda" } else { "transfer_to_new_account" }));
+                rep.fail("C16 an account was transferred under a group it does not belong to".to_string());
+            } else if w2.accounts != store {
+                rep.fail("C08 a refused transfer changed the account store".to_string());
+            }
+        }
         let before = c.w.marginfi_account(&c.old);
         let pre_store = c.w.accounts.clone();
         let r = c.w.exec(&c.ix());
